@@ -6,12 +6,12 @@ cd "$(dirname "$0")/.." || exit 2
 A=${1:-10}; B=${2:-20}; SCALE=${3:-0.3}
 for s in $(seq $A $B); do
   for p in C05 C06 C09 C10 C11 C16 C17 C18 C14; do
-    out=$(build/simcheck-A --property $p --tier quick --seed $s --runs-scale $SCALE --budget 200 2>&1); rc=$?
+    out=$(build/simcheck-A --property $p --tier quick --seed $s --runs-scale $SCALE --budget 200 --verif-dir "$PWD" --build-dir "$PWD/build" 2>&1); rc=$?
     echo "seed $s $p A rc=$rc $(echo "$out" | tail -1 | cut -c1-150)"
     [ $rc != 0 ] && echo "$out" | grep "violation candidate\|VIOLATION\|minimised\|HARNESS" | head -8
   done
   for p in C12 C13 C14; do
-    out=$(build/simcheck-T --property $p --tier quick --seed $s --runs-scale $SCALE --budget 200 2>&1); rc=$?
+    out=$(build/simcheck-T --property $p --tier quick --seed $s --runs-scale $SCALE --budget 200 --verif-dir "$PWD" --build-dir "$PWD/build" 2>&1); rc=$?
     echo "seed $s $p T rc=$rc $(echo "$out" | tail -1 | cut -c1-150)"
     [ $rc != 0 ] && echo "$out" | grep "violation candidate\|VIOLATION\|minimised\|HARNESS" | head -8
   done
